@@ -120,6 +120,9 @@ def run(ctx):
                           'server blocked forever and no other client is ever served', where=loc(f, c))
     ctx.floor('start-up receive/accept sites', n_recv, 4)
     check_child_side_reads(ctx)
+    # the close-your-copy discipline of R6 covers the descriptors a *spawned* child is handed; a forked one inherits everything
+    from ..frame import check_spawn_context
+    check_spawn_context(ctx, 'R6')
     # ... and the constructor that runs _start() through super().__init__() closes its copy of the child end only afterwards
     for cls, f in cands:
         if f.name != '_start':
